@@ -106,6 +106,13 @@ def fmt_cases():
     for pos, tail in itertools.product(positions, tails):
         for x, y in ((0, 255), (4096, 7)):
             out.append({"fmt": "a{" + pos + tail + "}b", "x": x, "y": y, "s": "str"})
+    # two and three fields: what one field's spec selects must not carry over to the next field
+    for t1, t2 in itertools.product(tails, tails):
+        for x, y in ((255, 255), (4096, 7)):
+            out.append({"fmt": "{" + t1 + "}-{" + t2 + "}", "x": x, "y": y, "s": "str"})
+    for t1, t2 in itertools.product([":x", ":08X", ":3b", ":o", ":05", ""], ["", ":d", ":5"]):
+        out.append({"fmt": "{1" + t1 + "}{0" + t2 + "}{1}", "x": 171, "y": 205, "s": "str"})
+        out.append({"fmt": "{" + t1 + "}{" + t2 + "}{}", "x": 171, "y": 205, "s": "str"})
     for f in ["{{", "{", "{0", "}}", "{}{}{}{}", "{}{:x}{}", "no specs", "", "{{}}", "{1}{0}{1}", "{ 0}", "{0 }", "{:0}", "{:00005}", "tail {", "{2:x}"]:
         out.append({"fmt": f, "x": 10, "y": 200, "s": "s"})
     return out
